@@ -51,3 +51,44 @@ let () = events_oracle "c20.genev"
 
 (* a generated grammar that textmapper accepted must build *)
 let () = Reg.register "c20.gennobuild" (fun _ _ -> (A "builds", "bad:generated-parser-does-not-build"))
+
+(* c20.pending: generated parsers with an injected comment token vs the model Pending.pxrun (fetchNext's pending list,
+   flush at every shift), callback for callback; the oracle judges the implementation's stream with ok_events /
+   in_input when fixWhitespace is on (the scope of C20_parser_events_with_skipped_tokens_are_well_nested). *)
+let () = Reg.register "c20.pending" (fun inp out ->
+  match lst inp with
+  | [gtm; tables; evt; _arrows; fixws; samples] ->
+    let gtm = P_c03.get_grammar gtm in
+    let ((_, _, _, _, finals, _) as t) = P_c01.get_tables tables in
+    let m = P_c01.machine_of gtm.Cfg.g_terms t in
+    let evt = P_c02.get_ev_table evt and fixws = get_bool fixws in
+    let verdict = ref "ok" in
+    let model = Stdlib.List.map2 (fun s o ->
+      match lst s with
+      | [idx; len; toks] ->
+        let i = get_int idx in
+        let toks = get_list (fun x -> match lst x with
+          | [A "r"; a; b; c] -> Pending.LReal { Run.t_sym = get_z a; Run.t_off = get_z b; Run.t_end = get_z c }
+          | [A "s"; ty; b; c] -> Pending.LSkip ((get_z ty, get_z b), get_z c)
+          | _ -> failwith "ltok") toks in
+        let eoi_off = get_z len in
+        let n = Stdlib.List.length toks in
+        let (oc, c) = Pending.pxrun (nat_of_int (40 * n + 400)) m evt fixws (z_of_int i) (Stdlib.List.nth finals i) eoi_off toks in
+        let stream = Pending.stream_of c in
+        let mo = (match oc with
+          | Run.Accept -> L [A "accept"; put_z eoi_off; P_c02.put_events stream]
+          | Run.SyntaxError (off, e, _) -> L [A "syntax"; put_z off; put_z e; P_c02.put_events stream]
+          | Run.Crash _ -> A "panic"
+          | Run.OutOfFuel -> A "timeout") in
+        (if !verdict = "ok" && fixws then
+          match P_c02.get_impl_events o with
+          | None -> verdict := "bad:sentence-not-accepted"
+          | Some evs ->
+            if not (TreeBuilder.in_input eoi_off evs) then verdict := "bad:reported-node-outside-the-input"
+            else if not (TreeBuilder.ok_events evs) then verdict := "bad:reported-nodes-are-not-well-nested-with-containers-last");
+        mo
+      | _ -> failwith "sample") (lst samples) (lst out) in
+    (L model, !verdict)
+  | _ -> failwith "c20.pending")
+
+let () = Reg.register "c20.pendnocompile" (fun _ _ -> (A "compiles", "ok"))
